@@ -31,8 +31,20 @@ package fixedpoint
 //@   nofail
 //@   ensures[C40] iff(result, !(negative && big(minInt) == 0) && lo <= v && v <= hi)
 
-// ---- C17: the range rule of the fixed-point fromString parsers (the split of the string into its parts,
-// parseFixedPoint, is string processing and not covered)
+// ---- C17: the range rule of the fixed-point fromString parsers. The split of the string into its parts
+// (parseFixedPoint) is string processing and not covered: it is assumed to return, for a well-formed string, the
+// sign, the integer digits' value, the fractional digits' value and their count - uninterpreted functions of the string.
+//@ ufun fperr(Int) Int
+//@ ufun fpneg(Int) Int
+//@ ufun fpint(Int) Int
+//@ ufun fpfrac(Int) Int
+//@ ufun fpscale(Int) Int
+//@ func parseFixedPoint
+//@   assumed
+//@   nofail
+//@   ensures iff(err != nil, fperr(v) != 0)
+//@   ensures err == nil ==> iff(negative, fpneg(v) != 0) && unsignedInteger != nil && fractional != nil && fresh(unsignedInteger) && fresh(fractional) && big(unsignedInteger) == fpint(v) && big(fractional) == fpfrac(v) && scale == fpscale(v)
+//@   ensures err == nil ==> fpint(v) >= 0 && fpfrac(v) >= 0 && fpscale(v) >= 0 && (fpscale(v) <= 24 ==> fpfrac(v) < pow10n(fpscale(v)))
 //@ func checkAndConvertFixedPoint
 //@   inline
 //@ func ConvertToFixedPointBigInt
